@@ -209,6 +209,10 @@ impl<'ast> Visit<'ast> for BodyIndex {
         self.nodes.push(json!({"k":"return","span":sp(e.span()),"expr":ex}));
         visit::visit_expr_return(self, e);
     }
+    fn visit_expr_async(&mut self, e: &'ast syn::ExprAsync) {
+        self.nodes.push(json!({"k":"async","span":sp(e.span()),"block":sp(e.block.span())}));
+        visit::visit_expr_async(self, e);
+    }
     fn visit_expr_if(&mut self, e: &'ast syn::ExprIf) {
         self.nodes.push(json!({"k":"if","span":sp(e.span()),"then":sp(e.then_branch.span()),
             "has_else": e.else_branch.is_some()}));
